@@ -5,7 +5,9 @@
 (* through the observer of ChainSyncObs.tla - the same operators the model    *)
 (* ChainSyncClient.tla is checked against.  Several traces are concatenated; *)
 (* each starts with a Reset line that carries the configured pipeline limit  *)
-(* (a) and chainsync.DefaultPipelineLimit of the code under test (b).        *)
+(* (a), chainsync.DefaultPipelineLimit of the code under test (b) and whether *)
+(* a block pipeline is configured (mt = 1: the CbBegin/CbEnd lines of kind F *)
+(* then come from the pipeline's ApplyFunc).                                 *)
 (* A rejected line ends the judgement of its trace only (rule recorded, rest *)
 (* skipped), so one TLC run judges every trace of the file.                  *)
 (*                                                                           *)
@@ -26,7 +28,7 @@ VARIABLES o,      \* the observer
 tvars == <<o, l, skip, errs>>
 
 TraceInit == /\ l = 1 /\ skip = FALSE /\ errs = <<>>
-             /\ o = ObsNew(Trace[1].a, Trace[1].b)
+             /\ o = ObsNew(Trace[1].a, Trace[1].b, Trace[1].mt = 1)
 
 Step(e) ==
     CASE e.ev = "Deq" /\ e.ep = "client" /\ e.mt = 0 -> ObsReq(o)
@@ -55,7 +57,7 @@ TraceNext ==
     /\ l' = l + 1
     /\ LET e == Trace[l] IN
          IF e.ev = "Reset"
-           THEN o' = ObsNew(e.a, e.b) /\ skip' = FALSE /\ UNCHANGED errs
+           THEN o' = ObsNew(e.a, e.b, e.mt = 1) /\ skip' = FALSE /\ UNCHANGED errs
          ELSE IF skip
            THEN UNCHANGED <<o, skip, errs>>
          ELSE /\ o' = Step(e)
